@@ -17,6 +17,27 @@ PC = 'geom3::point_cloud::PointCloud'
 SDS = 'metrology::surface_deviation::SurfaceDeviationSet'
 
 
+def deviation_fallback_rules(cx):
+    """shared with C02 (Mesh::measure_point_deviation reports the distance to the closest point)"""
+    # sibling agreement on the degenerate-offset fallback: both deviation functions fall back to the surface normal exactly when
+    # the LENGTH of the offset (Matrix::norm, not its square) is below the same tiny threshold
+    for fn, off in (('metrology::line_profiles::point_curve2_deviation', '(call OPoint::sub (param point) (call *::point (param station)))'),
+                    ('geom3::mesh::Mesh::measure_point_deviation', '(call OPoint::sub (param point) (field point (call *::surf_closest_to (param self) (param point))))')):
+        bb = cx.fn(fn)
+        if bb:
+            tests = []
+            for bi in bb.live:
+                t = bb.blocks[bi]['term']
+                if bi in bb.reachable() and t['k'] == 'switch':
+                    c = simplify(bb.dag().operand(t['d'], bi, len(bb.blocks[bi]['stmts'])))
+                    if c[0] == 'lt' and c[2] == ('const', 1e-06):
+                        tests.append(c)
+            okf = len(tests) == 1 and match(f'(lt (call Matrix::norm {off}) 1e-06)', tests[0]) is not None
+            cx.ob('EXPR', f'{fn.split("::")[-1]}:fallback-test', okf,
+                  f'{fn.split("::")[-1]}: the surface normal replaces the offset direction only when |offset| < 1e-6 (the length itself, as in its sibling)', where=bb.file,
+                  found='; '.join(show(t) for t in tests))
+
+
 def run(cx):
     # ---------------------------------------------------------------- TXN (crate-wide, generic)
     found = E.txn(cx, floor=4)
@@ -192,23 +213,7 @@ def run(cx):
             cx.ob('GUARD', f'point_curve2_deviation:sign:{"neg" if neg else "pos"}', g is not None,
                   f'the {"negated" if neg else "plain"} offset direction is chosen exactly when offset.normal {"<" if neg else ">="} 0 (direction on the normal side)',
                   where=c, found='; '.join(cx.show_guards(b, c.bb)))
-    # sibling agreement on the degenerate-offset fallback: both deviation functions fall back to the surface normal exactly when
-    # the LENGTH of the offset (Matrix::norm, not its square) is below the same tiny threshold
-    for fn, off in (('metrology::line_profiles::point_curve2_deviation', '(call OPoint::sub (param point) (call *::point (param station)))'),
-                    ('geom3::mesh::Mesh::measure_point_deviation', '(call OPoint::sub (param point) (field point (call *::surf_closest_to (param self) (param point))))')):
-        bb = cx.fn(fn)
-        if bb:
-            tests = []
-            for bi in bb.live:
-                t = bb.blocks[bi]['term']
-                if bi in bb.reachable() and t['k'] == 'switch':
-                    c = simplify(bb.dag().operand(t['d'], bi, len(bb.blocks[bi]['stmts'])))
-                    if c[0] == 'lt' and c[2] == ('const', 1e-06):
-                        tests.append(c)
-            okf = len(tests) == 1 and match(f'(lt (call Matrix::norm {off}) 1e-06)', tests[0]) is not None
-            cx.ob('EXPR', f'{fn.split("::")[-1]}:fallback-test', okf,
-                  f'{fn.split("::")[-1]}: the surface normal replaces the offset direction only when |offset| < 1e-6 (the length itself, as in its sibling)', where=bb.file,
-                  found='; '.join(show(t) for t in tests))
+    deviation_fallback_rules(cx)
     b = cx.fn('geom3::mesh::Mesh::measure_point_deviation')
     if b:
         r = cx.retval(b)
